@@ -18,7 +18,7 @@
    under C14's scoping side conditions var_guard - its parameter and result types denote
    the source types in the generated file (environment E'). *)
 From Coq Require Import Permutation Sorted.
-From Mk Require Import Lib.Bytes Gen.Alloc Gen.Types Gen.Render Gen.Render_proofs Gen.MethodSet Gen.MethodSet_proofs.
+From Mk Require Import Lib.Bytes Lib.Fresh Gen.Alloc Gen.Types Gen.Render Gen.Render_proofs Gen.MethodSet Gen.MethodSet_proofs.
 
 (* For every interface p.n (any embedding depth: any E, any fuel that gives an answer), every
    output file [is] that contains its mock, both templates: the mock type has exactly the
@@ -116,6 +116,27 @@ Theorem C02_group_files : forall reqs,
 Proof. exact group_files. Qed.
 Print Assumptions C02_group_files.
 
+(* Type parameters of the mock type (the model describes the tree WITH
+   fixes/c02-blank-type-params.diff): a blank parameter `_` of the interface gets a generated
+   name; as printed (Exported) the names of all parameters of the mock are pairwise distinct
+   and the name of a blank one differs from every declared name - provided the declared
+   names are distinct as printed and are offered unchanged (C14_typeparams' guards: [kept]).
+   So `Mock[...]` can be declared and instantiated: [_ any, _ any], [K comparable, _ any, V any]. *)
+Theorem C02_tparams_distinct : forall cx r tps ns,
+  mock_tparams cx r tps = Some ns -> Forall2 kept tps ns ->
+  NoDup (map (cx_exported cx) (declared_names tps)) ->
+  NoDup (map (cx_exported cx) ns) /\ length ns = length tps /\
+  Forall2 (fun x n => blank (lname (fst x)) = true -> ~ In (cx_exported cx n) (map (cx_exported cx) (declared_names tps))) tps ns.
+Proof. exact tparams_distinct. Qed.
+Print Assumptions C02_tparams_distinct.
+
+(* the search for a name never runs out of fuel when Exported keeps n, n1, n2, ... apart *)
+Theorem C02_tparams_total : forall cx,
+  (forall base i j, cx_exported cx (cand 1 base i) = cx_exported cx (cand 1 base j) -> i = j) ->
+  forall tps taken st, exists ns, tp_names cx taken st tps = Some ns.
+Proof. exact tparams_total. Qed.
+Print Assumptions C02_tparams_total.
+
 (* ------------------------------------------------------------------------------------ *)
 (* Where the property does NOT hold of the faithful model: known finding                 *)
 (* C02-own-api-collision (the guard api_free of C02_no_drop_no_dup is false)             *)
@@ -188,3 +209,14 @@ Example C02_example :
   (* embedding depth 5: Top -> Mid -> RC (alias) -> io.ReadCloser -> io.Reader *)
   method_set E0 5 src (B "Top") <> Err EOutOfFuel /\ method_set E0 4 src (B "Top") = Err EOutOfFuel.
 Proof. repeat split; try (vm_compute; reflexivity). vm_compute. discriminate. Qed.
+
+(* blank type parameters: [K comparable, _ any, V any], [_ any, _ any], in-package [_ Num] *)
+Definition r00 : registry := {| dst := src; inpkg := true; imports := [] |}.
+Definition anyc : ty := TAlias None (B "any") [].
+Example C02_tparams_example :
+  printed_tparams cx0 r00 [(named_label (B "K"), TNamed None (B "comparable") []); (named_label (B "_"), anyc); (named_label (B "V"), anyc)]
+    = Some [B "K"; B "V1"; B "V"] /\
+  printed_tparams cx0 r00 [(named_label (B "_"), anyc); (named_label (B "_"), anyc)] = Some [B "V"; B "V1"] /\
+  printed_tparams cx0 r00 [(named_label (B "_"), TNamed (Some src) (B "Num") [])] = Some [B "Num1"] /\
+  printed_tparams cx0 r00 [(named_label (B "_"), anyc); (named_label (B "T"), anyc)] = Some [B "V"; B "T"].
+Proof. vm_compute. repeat split. Qed.
